@@ -12,7 +12,7 @@ ASSUMPTIONS = ["oracle: list concatenation, list comprehension over mask cells i
                "cells hold distinct integers so order and identity of cells are visible", "values and row structure only (no dtypes)"]
 REQUIRED_FEATURES = ["zero_row_operand", "empty_row", "concat_axis1", "mask_all_false", "mask_all_true", "negative_end",
                      "empty_window", "input_1d", "input_2d", "npsarray", "padded_left"]
-BOUNDS = {"quick": "LV(3,2): all ordered pairs for concatenate axis 0 / axis -1; *_like; padding both sides x 2 fill values; every boolean "
+BOUNDS = {"quick": "LV(3,3) (concatenate partners / windows of three-row arrays restricted to LV(3,2) resp. LV(2,3)): all ordered pairs for concatenate axis 0 / axis -1; *_like; padding both sides x 2 fill values; every boolean "
                    "mask pattern over the cells for nonzero / where / subset / mask indexing; every vector of per-row windows 0<=s<=e<=len "
                    "and negative ends for ragged_slice on ragged, 2-D and 1-D (<=2 windows, n<=4) inputs and NPSArray[starts:ends]",
           "thorough": "LV(3,3) u LV(4,2); concatenate triples over LV(2,2)"}
@@ -20,7 +20,7 @@ BOUNDS = {"quick": "LV(3,2): all ordered pairs for concatenate axis 0 / axis -1;
 
 def _lv(tier):
     if tier == "quick":
-        return list(dsl.lens_vectors(3, 2))
+        return list(dsl.lens_vectors(3, 2)) + [v for v in dsl.lens_vectors(3, 3) if max(v, default=0) == 3]
     return list(dsl.lens_vectors(3, 3)) + [v for v in dsl.lens_vectors(4, 2) if len(v) == 4]
 
 
@@ -52,7 +52,7 @@ def cases(shard, tier):
                     yield ["concat0", [a, b, c]]
         return
     la = shard["lens"]
-    for lb in _lv(tier):
+    for lb in (_lv(tier) if (tier != "quick" or max(la, default=0) <= 2) else list(dsl.lens_vectors(2, 3))):
         yield ["concat0", [la, lb]]
         if len(la) == len(lb):
             yield ["concat1", [la, lb]]
@@ -67,7 +67,7 @@ def cases(shard, tier):
     size = sum(la)
     for bits in itertools.product([0, 1], repeat=size):
         yield ["mask", la, list(bits)]
-    if la:
+    if la and (tier != "quick" or max(la) <= 2 or len(la) <= 2):
         for combo in itertools.product(*[_windows(l) for l in la]):
             yield ["rslice", la, [list(c) for c in combo]]
             if len(set(la)) == 1 and la[0] > 0:
